@@ -318,17 +318,35 @@ func (rp *HTTPReverseProxy) injectRequestInfoToCtx(req *http.Request) *http.Requ
 	return req.Clone(newctx)
 }
 
+// checkRouteAuth reports whether req presents the credentials configured for the route it is forwarded to.
+// A proxy request (absolute-form target or CONNECT), whose route user is taken from Proxy-Authorization,
+// may present them in that header as well.
+func checkRouteAuth(rc *RouteConfig, req *http.Request) bool {
+	if rc == nil || (rc.Username == "" && rc.Password == "") {
+		return true
+	}
+	if user, passwd, ok := req.BasicAuth(); ok && user == rc.Username && passwd == rc.Password {
+		return true
+	}
+	if req.URL.Host != "" {
+		user, passwd, ok := parseBasicAuth(req.Header.Get("Proxy-Authorization"))
+		if ok && user == rc.Username && passwd == rc.Password {
+			return true
+		}
+	}
+	return false
+}
+
 func (rp *HTTPReverseProxy) ServeHTTP(rw http.ResponseWriter, req *http.Request) {
-	domain, _ := httppkg.CanonicalHost(req.Host)
-	location := req.URL.Path
-	user, passwd, _ := req.BasicAuth()
-	if !rp.CheckAuth(domain, location, user, user, passwd) {
+	// Resolve the route once and check the credentials against the very route the request is forwarded to.
+	newreq := rp.injectRequestInfoToCtx(req)
+	rc, _ := newreq.Context().Value(RouteConfigKey).(*RouteConfig)
+	if !checkRouteAuth(rc, req) {
 		rw.Header().Set("WWW-Authenticate", `Basic realm="Restricted"`)
 		http.Error(rw, http.StatusText(http.StatusUnauthorized), http.StatusUnauthorized)
 		return
 	}
 
-	newreq := rp.injectRequestInfoToCtx(req)
 	if req.Method == http.MethodConnect {
 		rp.connectHandler(rw, newreq)
 	} else {
